@@ -220,6 +220,13 @@ func runDetVariant(e *detEnv, variant string) (dv DetVariant) {
 		if victimProto == nil {
 			return fail("no server-side protocol object for W")
 		}
+		// warm-up: a fresh connection has an empty connection-local free list and would fetch a command object from
+		// the mutex-protected list (GetLockCommandLocked) — one answered request leaves an object on the local list
+		wc := e.cmd(1, protocol.COMMAND_LOCK, detKey(e.db, "warm"), lid("warm-"+variant), 0, 0, 0, 0)
+		if r, ok := Wb.call(wc, patience); !ok || r.Raw[19] != 0 {
+			return fail("W warm-up lock failed")
+		}
+		step("W: LOCK Kwarm with expiry 0 -> SUCCED (nothing held; leaves one command object on W's connection-local free list)")
 		victimProto.Lock()
 		step("harness takes W's connection write mutex (ServerProtocol.Lock)")
 		victimReq = e.cmd(1, protocol.COMMAND_LOCK, K, wid, 0, 30, 60, 0)
@@ -280,10 +287,16 @@ func runDetVariant(e *detEnv, variant string) (dv DetVariant) {
 	case "wake", "direct":
 		_, got := Wb.wait(victimReq, victimCh, 700*time.Millisecond)
 		foreign := 0
+		own := map[[16]byte]bool{}
+		for i := range Wb.sent {
+			var id [16]byte
+			copy(id[:], Wb.sent[i].Raw[3:19])
+			own[id] = true
+		}
 		for i := range Wb.recv {
 			var id [16]byte
 			copy(id[:], Wb.recv[i].Raw[3:19])
-			if id != victimReq.RequestId {
+			if !own[id] {
 				foreign++
 			}
 		}
